@@ -1,0 +1,95 @@
+//go:build verif
+
+// Contracts checked by /verif/gvc (contract-based deductive verification).
+// This file contains comments only; it is compiled only under the "verif" build tag.
+
+package server
+
+// C01 / C11 — the fan-out of one message: what the deliver handler does with each matching subscription the
+// subscription store reports (d.fn), and what flush enqueues at the end.
+
+// An IterateFn value the code calls without knowing which function it is (d.fn calls the mode-specific function
+// through a captured variable): $itCalls counts the calls, $itClient / $itSub are the arguments of the last one.
+//@ ghost var itCalls int
+//@ ghost var itClient string
+//@ ghost var itSub *gmqtt.Subscription
+//@ func type subscription.IterateFn
+//@ params clientID, sub
+//@ modifies heap, $itCalls, $itClient, $itSub
+//@ preserves all(deliverHandler.*), all(gmqtt.Subscription.*), allmaps(string, elem(fieldtype(deliverHandler.sl))), allelems(elem(elem(fieldtype(deliverHandler.sl)))), allcells(*deliverHandler), allcells(string)
+//@ ensures $itCalls == old($itCalls) + 1 && $itClient == clientID && $itSub == sub
+
+// d.fn — called once per matching subscription. A No Local subscription of the publisher itself is skipped (nothing
+// recorded, nothing queued, "matched" untouched). Otherwise the message has a match; a shared subscription is only
+// recorded, under the key of its group and filter ($share/<group>/<filter>), for flush to pick one member; a
+// non-shared one is handed to the mode-specific function, once, unchanged.
+//@ func newDeliverHandler$1
+//@ props C01 C11
+//@ let key = fullName(sub)
+//@ requires [C01] sub != nil && d != nil && d.sl != nil && iterateFn != nil
+//@ modifies heap, $itCalls, $itClient, $itSub
+//@ preserves all(deliverHandler.* - matched), all(gmqtt.Subscription.*)
+//@ ensures [C01] sub.NoLocal && clientID == srcClientID ==> result && d.matched == old(d.matched) && $itCalls == old($itCalls) && (forall k string :: has(d.sl, k) == old(has(d.sl, k)) && len(d.sl[k]) == old(len(d.sl[k])))
+//@ ensures [C01] !(sub.NoLocal && clientID == srcClientID) ==> d.matched
+//@ ensures [C11] !(sub.NoLocal && clientID == srcClientID) && sub.ShareName != "" ==> result && $itCalls == old($itCalls) && has(d.sl, key) && len(d.sl[key]) == old(len(d.sl[key])) + 1 && d.sl[key][len(d.sl[key]) - 1].clientID == clientID && d.sl[key][len(d.sl[key]) - 1].sub == sub
+//@ ensures [C11] !(sub.NoLocal && clientID == srcClientID) && sub.ShareName != "" ==> (forall k string :: k != key ==> has(d.sl, k) == old(has(d.sl, k)) && len(d.sl[k]) == old(len(d.sl[k])))
+//@ ensures [C11] !(sub.NoLocal && clientID == srcClientID) && sub.ShareName != "" ==> (forall i int :: 0 <= i && i < old(len(d.sl[key])) ==> d.sl[key][i].clientID == old(d.sl[key][i].clientID) && d.sl[key][i].sub == old(d.sl[key][i].sub))
+//@ ensures [C01] !(sub.NoLocal && clientID == srcClientID) && sub.ShareName == "" ==> $itCalls == old($itCalls) + 1 && $itClient == clientID && $itSub == sub
+//@ ensures [C11] old(slOK(d)) ==> slOK(d)
+
+// Overlap mode: every matching non-shared subscription gets its own copy — one enqueue on the subscriber's queue (if
+// the session has one), with that subscription and its identifier.
+//@ func newDeliverHandler$2
+//@ props C01
+//@ requires [C01] sub != nil && srv != nil && msg != nil && srv.queueStore != nil && srv.config.MQTT.MessageExpiry >= 0
+//@ modifies heap, ghostall(queue.Store.$adds)
+//@ ensures [C01] result
+//@ ensures [C01] old(srv.queueStore[clientID]) == nil ==> called(server.addMsgToQueueLocked#1) == 0
+//@ ensures [C01] old(srv.queueStore[clientID]) != nil ==> called(server.addMsgToQueueLocked#1) == 1
+//@ call server.addMsgToQueueLocked#1 assert [C01] $arg1 == now && $arg2 == clientID && $arg4 == sub && len(ids) == 1 && ids[0] == sub.ID && q == srv.queueStore[clientID] && q != nil
+//@ call server.addMsgToQueueLocked#1 assert [C01] $arg3 != nil && isfresh($arg3) && $arg3.Topic == msg.Topic && $arg3.QoS == msg.QoS && $arg3.Retained == msg.Retained && len($arg3.Payload) == len(msg.Payload)
+
+// Only-once mode: per subscriber the matching subscriptions are merged — the one with the highest QoS is kept
+// (the first of equals) and the identifiers of all of them are collected in the order reported; nothing is queued yet.
+//@ func newDeliverHandler$3
+//@ props C01
+//@ let e0 = d.mq[clientID]
+//@ requires [C01] sub != nil && d != nil && d.mq != nil && (forall k string :: has(d.mq, k) && d.mq[k] != nil ==> d.mq[k].sub != nil)
+//@ modifies map(d.mq), all(elem(elem(fieldtype(deliverHandler.mq))).*), allelems(uint32)
+//@ ensures [C01] result
+//@ ensures [C01] old(e0) == nil ==> d.mq[clientID] != nil && isfresh(d.mq[clientID]) && d.mq[clientID].sub == sub && len(d.mq[clientID].subIDs) == 1 && d.mq[clientID].subIDs[0] == sub.ID
+//@ ensures [C01] old(e0) != nil ==> d.mq[clientID] == old(e0) && d.mq[clientID].sub == (old(e0.sub.QoS) < sub.QoS ? sub : old(e0.sub))
+//@ ensures [C01] old(e0) != nil ==> len(d.mq[clientID].subIDs) == old(len(e0.subIDs)) + 1 && d.mq[clientID].subIDs[old(len(e0.subIDs))] == sub.ID && (forall i int :: 0 <= i && i < old(len(e0.subIDs)) ==> d.mq[clientID].subIDs[i] == old(e0.subIDs[i]))
+//@ ensures [C01] forall k string :: k != clientID ==> has(d.mq, k) == old(has(d.mq, k)) && d.mq[k] == old(d.mq[k])
+//@ ensures [C01] forall k string :: has(d.mq, k) && d.mq[k] != nil ==> d.mq[k].sub != nil
+//@ ensures [C01] old(mqOK(d)) ==> mqOK(d)
+
+// flush — at the end of the fan-out: for every shared group and filter that matched ($share/<group>/<filter> key)
+// exactly one of the recorded members is picked and gets one copy of the message, with its own subscription and
+// identifier; in only-once mode every subscriber with a non-shared match gets one copy, under the merged
+// subscription (highest QoS) with all collected identifiers.
+//@ spec func slOK(d *deliverHandler) bool = forall k string :: has(d.sl, k) ==> len(d.sl[k]) > 0 && (forall i int :: 0 <= i && i < len(d.sl[k]) ==> d.sl[k][i].sub != nil)
+//@ spec func mqOK(d *deliverHandler) bool = forall k string :: has(d.mq, k) ==> d.mq[k] != nil && d.mq[k].sub != nil
+//@ spec func dOK(d *deliverHandler) bool = d != nil && d.srv != nil && d.msg != nil && d.sl != nil && d.mq != nil && d.srv.queueStore != nil && d.srv.config.MQTT.MessageExpiry >= 0 && (forall k string :: has(d.srv.queueStore, k) ==> d.srv.queueStore[k] != nil)
+
+//@ func (*deliverHandler).flush
+//@ props C01 C11
+//@ requires [C01] dOK(d) && slOK(d) && mqOK(d)
+//@ modifies heap, ghostall(queue.Store.$adds)
+//@ loop 1 invariant dOK(d) && slOK(d) && mqOK(d) && d == old(d) && d.sl == old(d.sl) && d.mq == old(d.mq) && d.srv == old(d.srv) && d.msg == old(d.msg)
+//@ loop 2 invariant dOK(d) && mqOK(d) && d == old(d) && d.mq == old(d.mq) && d.srv == old(d.srv) && d.msg == old(d.msg)
+// one member of the group, chosen among those recorded for exactly this key
+//@ call server.addMsgToQueueLocked#1 assert [C11] (exists i int :: 0 <= i && i < len(v) && v[i].clientID == rs.clientID && v[i].sub == rs.sub)
+//@ call server.addMsgToQueueLocked#1 assert [C11 C01] $arg1 == d.now && $arg2 == rs.clientID && $arg4 == rs.sub && len(ids) == 1 && ids[0] == rs.sub.ID && q == d.srv.queueStore[rs.clientID]
+//@ call server.addMsgToQueueLocked#1 assert [C11 C01] $arg3 != nil && isfresh($arg3) && $arg3.Topic == d.msg.Topic && $arg3.QoS == d.msg.QoS && $arg3.Retained == d.msg.Retained && len($arg3.Payload) == len(d.msg.Payload)
+//@ loop 1 step [C11] called(server.addMsgToQueueLocked#1) == at(iter1, called(server.addMsgToQueueLocked#1)) + (has(d.srv.queueStore, rs.clientID) ? 1 : 0)
+//@ call server.addMsgToQueueLocked#2 assert [C01] $arg1 == d.now && $arg2 == clientID && $arg4 == v#2.sub && ids == v#2.subIDs && q == d.srv.queueStore[clientID] && q != nil && v#2 == d.mq[clientID]
+//@ call server.addMsgToQueueLocked#2 assert [C01] $arg3 != nil && isfresh($arg3) && $arg3.Topic == d.msg.Topic && $arg3.QoS == d.msg.QoS && $arg3.Retained == d.msg.Retained && len($arg3.Payload) == len(d.msg.Payload)
+//@ loop 2 step [C01] called(server.addMsgToQueueLocked#2) == at(iter2, called(server.addMsgToQueueLocked#2)) + (d.srv.queueStore[clientID] != nil ? 1 : 0)
+
+// newDeliverHandler: an empty handler for one message.
+//@ func newDeliverHandler
+//@ props C01 C11
+//@ requires [C01] srv != nil && msg != nil
+//@ ensures [C01] result != nil && isfresh(result) && result.msg == msg && result.srv == srv && result.now == now && !result.matched && result.fn != nil
+//@ ensures [C01] result.sl != nil && result.mq != nil && isfresh(result.sl) && isfresh(result.mq) && len(result.sl) == 0 && len(result.mq) == 0
